@@ -11,7 +11,8 @@ LEVEL_TEXT = ('RefCountedSink.Open/Close are verified against the invariant "und
               'so concurrent first requests cannot create a second sink; a held sink is dropped only when it reports closed.')
 LEVEL_NOTE = ('Trusted: pyvc encoding, z3/cvc5; gevent switches only at AsyncResult.wait (flagged extern); the transport\'s Open is idempotent while pending; '
               'WeakValueDictionary is modelled as a dict that keeps entries (sharing "as long as any holder is alive"); Open/Close of the underlying sink do not raise. '
-              'SingletonPoolSink.Open and the closed-pool corner (a Close interleaved with a waiting _Get makes _Get return None) are not under contract.')
+              'SingletonPoolSink.Open and the closed-pool corner (a Close interleaved with a waiting _Get makes _Get return None) are not under contract.'
+              ' Concurrent first requests through SingletonPoolSink._Get and the behaviour of SharedSinkProvider after the underlying connection has failed are covered by replay scenarios only (used when a changed text cannot be verified), not by the contracts.')
 ASSUMPTIONS = ['other greenlets change a singleton pool only through the operations listed in specs/pools.py CONCURRENCY["Singleton"] (each proved to keep the invariant and guarantee)',
                'termination of the recursive _Get is not proved']
 TRUSTED = []
